@@ -58,6 +58,8 @@ def emit_fn(fn):
 
     if fn.kind in ("expr", "arg"):
         body = "return " + body + ";"
+    if fn.kind not in ("lambda",):
+        body, n = X.r_inline_lambdas(body); note("R24_inline_lambda", n)
     if fn.ctor:
         init, n = X.ctor_init_statements(loc.header)
         note("R21_ctor_init", n)
